@@ -611,6 +611,12 @@ func (p *Transformer) transformCallInstr(m llvm.Module, ctx llvm.Context, call l
 		}
 	}
 
+	// The arguments of a variadic call that follow the fixed parameters are
+	// passed as they are (the last operand of a call is the callee).
+	for i, n := operandCount, call.OperandsCount()-1; i < n; i++ {
+		nparams = append(nparams, call.Operand(i))
+	}
+
 	updateCallAttr := func(call llvm.Value) {
 		for i, attr := range attrs {
 			call.AddCallSiteAttribute(i, attr)
